@@ -489,6 +489,11 @@ class PoolScn:
                 started_before_end = sum(1 for op in ops if op.get("start") and op["start"] < ex["end"])
                 match = [j for j, v in enumerate(vers) if v == got]
                 hist = "updates %s" % [(op.get("op"), "inside a rule" if op.get("inside") else "other goroutine", op.get("start"), op.get("end")) for op in ops if op.get("start")]
+                removed = any(op.get("op") == "remove" for op in ops)
+                if removed and not got and "N-M execute model" in (ex.get("err") or ""):
+                    # the N-M models demand n + m = number of installed rules; the request was sized for the
+                    # initial rule set and a removal changed the count: refused up front, nothing ran
+                    continue
                 if not match:
                     add("atomic", "impl-vs-spec", "request %s (%s, clock %s-%s) ran (rule, version) %s: not the rule set of any single installed version %s | %s | err %s"
                         % (ex.get("id"), ex.get("method"), ex.get("start"), ex.get("end"), got, vers, hist, (ex.get("err") or "")[:80]))
